@@ -89,7 +89,8 @@ def profiles(draw, values, max_points=20, periodic=None, first_at_zero=None, dya
     n = draw(st.one_of(st.integers(min_points, 4), st.integers(min_points, max_points)))
     ds = draw(dates(n))
     if not dyadic:
-        ds = sorted(d * draw(st.sampled_from([0.1, 0.3, 1 / 3, 0.7])) * 8 for d in ds) if ds else ds
+        f = draw(st.sampled_from([0.7, 1 / 3, 1.1, 0.9, 0.1]))
+        ds = [d * f for d in ds]        # dates that are not representable: the kernel accumulates deltas, the reference multiplies
     if first_at_zero is True or (first_at_zero is None and draw(st.integers(0, 3)) == 0):
         ds[0] = 0.0
     elif first_at_zero is False and ds[0] == 0.0:
@@ -118,22 +119,23 @@ QUART = st.integers(0, 12).map(lambda k: k / 4)
 def scenarios(draw, tier="quick"):
     cpu = draw(st.sampled_from(["Lazy", "Lazy", "Full", "TI"]))
     net = draw(st.sampled_from(["Lazy", "Lazy", "Full"]))
-    kinds = draw(st.lists(st.sampled_from(["speed", "speed", "bw", "bw", "lat", "hstate", "lstate"]), min_size=1, max_size=3, unique=True))
+    kinds = draw(st.lists(st.sampled_from(["speed", "speed", "bw", "bw", "lat", "hstate", "hstate", "lstate"]), min_size=1, max_size=3, unique=True))
+    dy = draw(st.integers(0, 3)) > 0          # 1 scenario in 4 uses dates that are not multiples of 1/8
     h0 = {"name": "h0", "speed": 1024.0, "cores": 1 if cpu == "TI" else 2}
     l0 = {"name": "l0", "bw": 1024.0, "lat": 0.5, "policy": "SHARED"}
     nominal_lat = draw(st.sampled_from([0.5, 0.0, 1.0]))
     l0["lat"] = nominal_lat
     if "speed" in kinds:
         # TI: repeating profiles only (asserted by the model); with a single point CpuTi::get_speed_ratio segfaults (known finding of C19)
-        h0["speed_profile"] = draw(profiles(SPEED_VALUES, periodic=True if cpu == "TI" else None, min_points=2 if cpu == "TI" else 1))
+        h0["speed_profile"] = draw(profiles(SPEED_VALUES, dyadic=dy, periodic=True if cpu == "TI" else None, min_points=2 if cpu == "TI" else 1))
     if "hstate" in kinds:
-        h0["state_profile"] = draw(profiles(STATE_VALUES, max_points=8))
+        h0["state_profile"] = draw(profiles(STATE_VALUES, max_points=8, dyadic=dy))
     if "bw" in kinds:
-        l0["bw_profile"] = draw(profiles(BW_VALUES))
+        l0["bw_profile"] = draw(profiles(BW_VALUES, dyadic=dy))
     if "lat" in kinds:
-        l0["lat_profile"] = draw(profiles(LAT_VALUES, max_points=8))
+        l0["lat_profile"] = draw(profiles(LAT_VALUES, max_points=8, dyadic=dy))
     if "lstate" in kinds:
-        l0["state_profile"] = draw(profiles(STATE_VALUES, max_points=8))
+        l0["state_profile"] = draw(profiles(STATE_VALUES, max_points=8, dyadic=dy))
     oc_ = 1 if cpu == "TI" else 2
     plat = {"hosts": [h0, {"name": "h1", "speed": 1024.0, "cores": oc_}, {"name": "h2", "speed": 1024.0, "cores": oc_}],
             "links": [l0, {"name": "l1", "bw": 1024.0, "lat": 0.5, "policy": "SHARED"}],
@@ -184,7 +186,7 @@ def scenarios(draw, tier="quick"):
     sample = {"bw": ["l0"]}
     if not (cpu == "TI" and "speed" not in kinds):
         sample["speed"] = ["h0"]
-    return {"cfg": cfg, "platform": plat, "objects": {"mailbox": 1}, "actors": actors, "sample": sample}
+    return {"cfg": cfg, "platform": plat, "objects": {"mailbox": 1}, "actors": actors, "sample": sample, "dyadic": dy}
 
 
 # ------------------------------------------------------------------------------------------------ oracle
@@ -521,5 +523,7 @@ def check_c22(case, log, oc, labels):
         if len(ds) >= 10:
             labels.add("points>=10")
     labels.add("cpu:" + [c for c in cfg if c.startswith("cpu/optim")][0].split(":")[1])
+    if not case.get("dyadic", True):
+        labels.add("non-dyadic-dates")
     oc.nontrivial = bool({"speed-event-inside-exec", "bandwidth-event-inside-transfer", "period-wraps>=2", "host-off-during-exec",
                           "host-off-during-exec:remote", "link-off-during-comm", "killed-by-state-profile"} & labels)
